@@ -194,14 +194,34 @@ def runSem (j : Json) : Json :=
               | _ => none)
            | _, _ => none)
         | none => none)
-      let cutL : List Nat := cellPairs.flatMap (fun (_, w, h, _, _, _) => [w, h]) ++ loopCells.map (fun (_, e, _, _) => e)
+      -- set-priority latches with value 1: one three-row decider that reads its own output
+      let latchCells : List (Nat × Nat × Option Nat × I32 × Sig × Arg × Arg) := (List.range core.mems.size).filterMap (fun m =>
+        match core.mems[m]? with
+        | some cell =>
+          (match cell.writes, cell.ty with
+           | [WriteRule.latch (.int k) s r true], some ty =>
+             (match latchCands c.circ (ren ty) with
+              | [e] =>
+                if k == 1 then some (m, e, none, k, ren ty, s, r)
+                else if k == 0 then none
+                else (match multCands c.circ e (ren ty) k with
+                      | [mu] => some (m, e, some mu, k, ren ty, s, r)
+                      | _ => none)
+              | _ => none)
+           | _, _ => none)
+        | none => none)
+      let cutL : List Nat := cellPairs.flatMap (fun (_, w, h, _, _, _) => [w, h]) ++ loopCells.map (fun (_, e, _, _) => e) ++
+        latchCells.flatMap (fun (_, e, mu, _, _, _, _) => e :: mu.toList)
       let vc : Circuit := if stateful then c.circ.cut cutL else c.circ
       let memRoots : List (Nat × Bind) := (List.range core.nodes.size).filterMap (fun n =>
         match (core.nodes[n]? : Option CNode) with
         | some (CNode.memRead m _) =>
           match (cellPairs.find? (fun (m', _, _, _, _, _) => m' == m)).map (fun (_, w, h, ty, _, _) => (n, Bind.sum [w, h] ty)) with
           | some r => some r
-          | none => (loopCells.find? (fun (m', _, _, _) => m' == m)).map (fun (_, e, ty, _) => (n, Bind.sum [e] ty))
+          | none =>
+            match (loopCells.find? (fun (m', _, _, _) => m' == m)).map (fun (_, e, ty, _) => (n, Bind.sum [e] ty)) with
+            | some r => some r
+            | none => (latchCells.find? (fun (m', _, _, _, _, _, _) => m' == m)).map (fun (_, e, mu, _, ty, _, _) => (n, Bind.sum [mu.getD e] ty))
         | _ => none)
       -- verified validator for the scalar fragment (theorem Facto.scalar_end_to_end)
       let roots : List (Nat × Bind) := core.named.toList.filterMap (fun nm =>
@@ -227,7 +247,7 @@ def runSem (j : Json) : Json :=
         | some (CNode.entOut k) => (entIdx k).map (fun i => (n, Bind.many [i]))
         | _ => none)
       let enablePairs : List (Nat × Arg) := enableObs.filterMap (fun o => o.enable.map (fun w => (o.idx, w)))
-      let bindArr := inferBindings vc core.nodes (memRoots ++ entOutRoots ++ roots ++ cellPairs.flatMap (fun (_, w, _, ty, d, en) => proposeGated c.circ core.nodes w ty d en) ++ loopCells.flatMap (fun (_, e, ty, d) => proposeAlways c.circ core.nodes e ty d)) enablePairs
+      let bindArr := inferBindings vc core.nodes (memRoots ++ entOutRoots ++ roots ++ cellPairs.flatMap (fun (_, w, _, ty, d, en) => proposeGated c.circ core.nodes w ty d en) ++ loopCells.flatMap (fun (_, e, ty, d) => proposeAlways c.circ core.nodes e ty d) ++ latchCells.flatMap (fun (_, e, _, _, ty, s, r) => proposeLatch c.circ core.nodes e ty s r)) enablePairs
       let bindF : Nat → Option Bind := fun n => bindArr.getD n none
       let rank := computeRank vc
       let ranked := vc.checkRanked rank
@@ -241,6 +261,11 @@ def runSem (j : Json) : Json :=
           Json.mkObj [("mem", toJson m), ("write_gate", toJson w), ("hold_gate", toJson h), ("type", Json.str ty),
             ("proved", Json.bool (stateful && failing.isEmpty && cutOK c.circ cutL &&
               gatedCellIs c.circ vc core.nodes bindF w h ty d en))])).toArray),
+        ("latch_cells", Json.arr (latchCells.map (fun (m, e, mu, k, ty, sArg, rArg) =>
+          Json.mkObj [("mem", toJson m), ("entity", toJson e), ("type", Json.str ty), ("multiplier", match mu with | some x => toJson x | none => Json.null),
+            ("proved", Json.bool (stateful && failing.isEmpty && cutOK c.circ cutL &&
+              latchIs c.circ vc core.nodes bindF e ty sArg rArg &&
+              (match mu with | some x => multIs c.circ e x ty k | none => true)))])).toArray),
         ("loop_cells", Json.arr (loopCells.map (fun (m, e, ty, d) =>
           Json.mkObj [("mem", toJson m), ("entity", toJson e), ("type", Json.str ty),
             ("proved", Json.bool (stateful && failing.isEmpty && cutOK c.circ cutL &&
